@@ -1,5 +1,5 @@
 """Dataset.project (C19, C15): the requested column list reaches both the data frame selection and the domain projection
-unchanged — so the result's columns, its domain and hence its data vector are laid out in the caller's order, which is the order
+(the frame selection as a set of columns: the Dataset constructor orders them by the domain) — so the result's domain and hence its data vector are laid out in the caller's order, which is the order
 the caller's query matrix and answers follow.  A bare str / int is wrapped in a one-element list."""
 from ..vc.sitehooks import SiteSpecHooks
 
@@ -7,13 +7,16 @@ _REQ = 'seq_equal(%s, cols__old) or same(%s, [cols__old])'
 PROJECT = dict(
     params=dict(self='obj:Dataset', cols='seq:obj'), requires=[], sequences=True,
     pure={'Dataset': 'obj:Dataset', 'type': 'obj'},
-    sites=[dict(func='[]', container='self.df.loc', name='frame-columns-as-requested', spec=_REQ % ('__key[1]', '__key[1]')),
+    # the Dataset constructor re-selects the frame's columns in the order of the domain it is given, so the order of this
+    # selection is immaterial: it must pick the requested columns, in any order
+    sites=[dict(func='[]', container='self.df.loc', name='frame-columns-are-the-requested-ones',
+                spec='(all_in(__key[1], cols__old) and all_in(cols__old, __key[1])) or same(__key[1], [cols__old])'),
            dict(func='.project', arg=0, name='domain-projected-as-requested', spec=_REQ % ('__arg', '__arg')),
            dict(func='Dataset', arg=0, name='result-built-from-the-selected-frame', spec='same(__arg, data)'),
            dict(func='Dataset', arg=1, name='result-domain-is-the-projected-domain', spec='same(__arg, domain)'),
            dict(func='Dataset', arg=2, name='weights-carried-over', spec='same(__arg, self.weights)')],
     ensures={'one-selection-one-projection-one-result':
-             'ghost("n_site_frame-columns-as-requested") == 1 and ghost("n_site_domain-projected-as-requested") == 1 and '
+             'ghost("n_site_frame-columns-are-the-requested-ones") == 1 and ghost("n_site_domain-projected-as-requested") == 1 and '
              'ghost("n_site_result-domain-is-the-projected-domain") == 1'},
 )
 ITEMS = [('src/mbi/dataset.py', 'Dataset.project', PROJECT)]
